@@ -15,7 +15,8 @@ PROPERTY = "C02"
 RULE = ("core: Hypothesis pairs of equally long sequences (2-40 poses drawn, bulk to 3000), reference with stationary "
         "stretches, estimate with different geometry, x delta unit {frames,m,rad,deg} x delta (incl. realised values) x "
         "all_pairs x pairs_from_reference x 7 relations x tolerance; cli: evo_rpe in-process on generated files. "
-        "Non-trivial = >= 1 pair and ref/est relative motions differ; distinct by SHA-1")
+        "Non-trivial = >= 1 pair and ref/est relative motions differ; distinct by SHA-1"
+        ' Round-3 additions: cli checks metres chains (every admissible start) and all-pairs selections/values against the definition on the processed trajectories, tolerance 0; metamorphic invariance also for metre/angle deltas when no selection decision is within rounding of its threshold.')
 ASSUMPTIONS = ["pair lists come from evo's selectors (validated separately by C10) and are compared with RPE.delta_ids",
                "reference RPE definition in vf/refmodel.py; tolerances as C01"]
 
